@@ -179,6 +179,8 @@ func FromAny(v any) Cell {
 	switch x := v.(type) {
 	case nil:
 		return NilCell()
+	case []any:
+		return StrCell(fmt.Sprintf("%v", x)) // the identity aggregation of Resample (show_cells in Ops.v)
 	case int:
 		return IntCell("int", int64(x))
 	case int8:
